@@ -21,3 +21,19 @@ func specReady() bool {
 //@ func GetFWThread
 //@   ensures (id < 0 || id >= len(FWDispatch)) ==> result == nil
 //@   ensures 0 <= id && id < len(FWDispatch) ==> result == FWDispatch[id]
+
+// Immutable attributes of a face, and the face table lookup (a function of the table state; the table is not
+// modified while one packet is processed: A-SEQ).
+//
+//@ func (Face).Scope
+//@   pure
+
+//@ func (Face).FaceID
+//@   pure
+
+//@ func (Face).LinkType
+//@   pure
+
+//@ func GetFace
+//@   pure
+//@   trusted
